@@ -271,7 +271,7 @@ func init() {
 		Title: "No accepted transaction sequence can make block processing fail",
 		Funcs: fcNP("x/oracle/keeper.Keeper.WeightedMedian", "x/oracle/keeper.Keeper.WeightedMode", "x/oracle/keeper.Keeper.SetValue",
 			"x/oracle/keeper.Keeper.RotateQueries", "x/oracle/keeper.Keeper.GetCurrentQueryInCycleList", "x/oracle/keeper.Keeper.GetCyclelist", "x/oracle/keeper.Keeper.InitCycleListQuery",
-			"x/oracle/keeper.msgServer.UpdateCyclelist", "x/oracle/keeper.Keeper.ClearOldqueries", "x/oracle/keeper.Keeper.SetAggregatedReport", "x/oracle/keeper.Keeper.AllocateRewards", "x/oracle.EndBlocker", "x/dispute/keeper.Keeper.UpdateDispute",
+			"x/oracle/keeper.msgServer.UpdateCyclelist", "x/oracle/keeper.Keeper.ClearOldqueries", "x/oracle/keeper.Keeper.SetAggregatedReport", "x/oracle/keeper.Keeper.AllocateRewards", "x/oracle.EndBlocker", "x/bridge/keeper.Keeper.CreateNewReportSnapshots", "x/dispute/keeper.Keeper.UpdateDispute",
 			"x/dispute.CheckOpenDisputesForExpiration", "x/dispute.CheckClosedDisputesForExecution", "x/dispute/keeper.Keeper.CloseDispute", "x/dispute/keeper.Keeper.AddDisputeRound", "x/reporter/keeper.Keeper.TrackStakeChange",
 			"x/mint.BeginBlocker", "x/mint.MintBlockProvision", "x/mint.SetPreviousBlockTime", "x/mint/keeper.Keeper.SendInflationaryRewards", "x/mint/keeper.Keeper.MintCoins", "x/mint/types.Minter.CalculateBlockProvision"),
 		Assumptions: []string{
